@@ -119,7 +119,6 @@ def run(c, replay):
     # time must belong to a state that still exists (harness/drv_lp.c check_termination): a rollback that undoes the event on which the
     # predicate first held must clear it, whatever the undone entries look like
     lpruns = C.lp_campaign(c, ctx, r, 10 if c.tier == "quick" else 150, S.mask("ROLLBACK"), low_targets=True)
-    c.cov.update(C.worker_report(c, lpruns))
     nrb = 0
     for run_ in lpruns:
         nrb += sum(1 for x in run_["trace"] if x["kind"] == "ROLLBACK")
@@ -129,6 +128,7 @@ def run(c, replay):
             c.violation("termination-time-survives-rollback", dict(kind="property", what="LP %s is accounted as terminated at tick %s although the state on which its "
                         "predicate held has been rolled back (predicate false on its current state)" % (bad[0].split()[2], bad[0].split()[3]),
                         program=run_["prog"]["text"], script=run_["script"][:k], checkpoint_interval=run_["cfg"][1], how="harness/drv_lp <program> <ckpt> < script"), True)
+    c.cov.update(C.worker_report(c, lpruns, quiet_if_violations=True))      # a concrete failing script above is the better report
     c.cov.update(lp_level_runs=len(lpruns), lp_level_rollbacks=nrb)
     C.finish(c, ctx)
     c.cov.update(evaluations=len(runs), distinct_nontrivial=nontriv, runs_returned=ok, votes_seen=votes,
